@@ -507,4 +507,52 @@ theorem tie_model_escapePred (c : UInt8) :
 /-- DEL is not escaped (finding F9a) -/
 theorem tie_model_del_not_escaped : ArvVerif.C10.fsEscapePred 127 = false := by decide
 
+/-! ### the protocol facts Model/C09_Conc.lean relies on, as path properties of the regenerated skeletons
+(weaker than the exact skeleton ties above — they survive harmless rewrites — and they name what matters) -/
+
+/-- the entries strictly between the first `a` and the next `b` -/
+def between (l : List String) (a b : String) : List String :=
+  ((l.dropWhile (· != a)).drop 1).takeWhile (· != b)
+
+/-- the entries after the first `a` -/
+def after (l : List String) (a : String) : List String := (l.dropWhile (· != a)).drop 1
+
+/-- `commitBlock`: the context is checked once, before anything is marked (Model `check`: spawned → waiting | skip,
+and no second check after `Acquire`); no path leaves between `Acquire` and the start of the goroutine (Model
+`acquire`: waiting → writing only — otherwise a marked segment would keep an open channel or a slot would leak);
+the goroutine's first statements defer `close(done)` then `close(errs)` (Model `closeDone` always enabled after
+`ret`); `Release` directly follows `PutB`, before the error test (Model `release`: answered b → released b for
+both b); the only return of the goroutine before the replacement loop is the error return. -/
+theorem tie_commit_paths :
+    (commitSkeleton.filter (· == "call ctx.Err => err")).length = 1 ∧
+    "call ctx.Err => err" ∉ after commitSkeleton "call dn.fs.throttle().Acquire" ∧
+    "return" ∉ between commitSkeleton "call dn.fs.throttle().Acquire" "go" ∧
+    (after commitSkeleton "go").take 5 = ["func {", "defer", "call close", "defer", "call close"] ∧
+    between commitSkeleton "call dn.fs.PutB => locator,_,err" "call dn.fs.throttle().Release" = [] ∧
+    (between commitSkeleton "call dn.fs.throttle().Release" "for {").filter (· == "return") = ["return"] ∧
+    (commitSkeleton.filter (· == "call dn.fs.throttle().Acquire")).length = 1 ∧
+    (commitSkeleton.filter (· == "call dn.fs.throttle().Release")).length = 1 := by decide +kernel
+
+/-- `pruneMemSegments` (the background writers `bg` of the model): the writer takes the slot before `go`; no path
+leaves between `Acquire` and `go`; the goroutine defers `close(done)` first; it gives the slot back right after
+PutB and BEFORE it asks for the file lock (a save holds that lock while it waits for a slot: the other order
+deadlocks — Model `bgRelease` needs nothing) -/
+theorem tie_prune_paths :
+    "return" ∉ between pruneSkeleton "call fn.fs.throttle().Acquire" "go" ∧
+    (after pruneSkeleton "go").take 3 = ["func {", "defer", "call close"] ∧
+    "return" ∉ between pruneSkeleton "call fn.FS().PutB => locator,_,err" "call fn.fs.throttle().Release" ∧
+    "call fn.Lock" ∉ between pruneSkeleton "go" "call fn.fs.throttle().Release" ∧
+    "call fn.Lock" ∈ after pruneSkeleton "call fn.fs.throttle().Release" ∧
+    (pruneSkeleton.filter (· == "call fn.fs.throttle().Acquire")).length = 1 ∧
+    (pruneSkeleton.filter (· == "call fn.fs.throttle().Release")).length = 1 := by decide +kernel
+
+/-- `contextGroup`: `Go` tests `cg.err` before `wg.Add` and `go` (Model `spawn`: dropped | spawned); inside the
+goroutine `wg.Done` is deferred before `f` runs and the error test comes after `f` (Model `finish`); `Wait` starts
+with `wg.Wait` (Model `wait`: enabled only when every task is done) -/
+theorem tie_cg_paths :
+    (cgGoSkeleton.takeWhile (· != "call cg.wg.Add")).filter (· == "if cg.err != nil {") = ["if cg.err != nil {"] ∧
+    between cgGoSkeleton "call cg.wg.Add" "call f => err" = ["go", "func {", "defer", "call cg.wg.Done"] ∧
+    "call cg.cancel" ∈ after cgGoSkeleton "if err != nil && cg.err == nil {" ∧
+    cgWaitSkeleton.head? = some "call cg.wg.Wait" := by decide +kernel
+
 end ArvVerif.Tie.C09
